@@ -588,7 +588,10 @@ def fsms(tier):
         out += [('every', fm), ('any', fm)]
     conds = [[('a', None)], [('a', ('type', 'file'))], [('a', None), ('d', ('type', 'dir'))], [('d/a', None)], [('d', None), ('d/a', None)], [('a.txt', ('name', G('*.txt')))],
              [('nofile', None)], [], [('a', ('type', 'file')), ('a', ('and', [('type', 'file'), ('contents-empty',)]))], [('d/e/a', None)], [('ld', ('type', 'dir'))], [('dangling', ('type', 'symlink'))],
-             [('ld/a', None)], [('b', ('type', 'dir'))]]
+             [('ld/a', None)], [('b', ('type', 'dir'))],
+             # one name several times, with and without matcher, in both orders (the matchers of one name are combined with &&)
+             [('a', ('type', 'dir')), ('a', None)], [('a', None), ('a', ('type', 'dir'))], [('d', ('type', 'file')), ('d', None), ('a', None)],
+             [('a', ('type', 'file')), ('a', None), ('a', ('contents-empty',))]]
     for c in conds:
         out += [('matches', False, c), ('matches', True, c)]
     sels = [('type', 'file'), ('type', 'dir'), ('name', G('a*')), ('const', False), ('type', 'symlink'), FMS[-3], FMS[-2]]
